@@ -12,7 +12,8 @@ CHECKS = {"R1_receiver_ack_helper": ["C01", "C02", "C03", "C04", "C05", "C06", "
           "R7_procman_orders": ["C17", "C18"],
           "R8_scheduler_variants": ["C13", "C14", "C15", "C16"],
           "R9_kicker_retry_params_orders": ["C08", "C09", "C10", "C11", "C16"],
-          "R10_serialization_orders": ["C19", "C20", "C07"]}
+          "R10_serialization_orders": ["C19", "C20", "C07"],
+          "R11_scheduler_wake_margin": ["C13", "C14", "C15", "C16"]}
 
 def sh(cmd):
     return subprocess.run(cmd, shell=True, capture_output=True, text=True)
